@@ -28,7 +28,7 @@ CLIENT_CHUNK = 3
 BUDGET = {'quick': 160000, 'thorough': 4000000}
 WALL_CAP = {'quick': 100.0, 'thorough': 1500.0}
 CHUNK = 400
-SET_ORDER_OPS = {'clear', 'items'}  # their effect order follows set iteration order (PYTHONHASHSEED)
+SET_ORDER_OPS = {'clear', 'items', 'popitem', 'values'}  # their effect order follows set iteration order (PYTHONHASHSEED)
 
 
 def plan_for(workload, fault_mode, verif_seed, i):
